@@ -172,3 +172,74 @@ def check_C10(tier, seed):
     res.notes.update({"sequences": len(seqs), "outcome_classes": classes, "fsm_mismatches": drift})
     res.assumptions += ["below GraphQL token level (arbitrary bytes) is async-graphql-parser's territory and not enumerated"]
     return res
+
+# ------------------------------------------------------------------ C25
+def sites_of(doc):
+    """every resolver site of a schema document (python enumeration of the fault space; which of them are probed is Checker.tla's business)"""
+    names = {t["name"] for t in doc["types"]}
+    out = []
+    for t in doc["types"]:
+        if t["name"] == doc["query"]: continue
+        for f in t["fields"]:
+            if f["ty"]["base"] in names: out.append(("nbrs", t["name"], f["name"]))
+            else: out.append(("prop", t["name"], f["name"]))
+        out.append(("prop", t["name"], "__typename"))
+        for i in t["implements"]:
+            if i in names: out.append(("coerce", i, t["name"]))
+    return out
+
+def check_C25(tier, seed):
+    import schemafam, copy
+    res = Result("C25", tier, seed, "fault_enumeration")
+    wd = workdir("C25")
+    docs = schemafam.schema_docs("quick")
+    # schemas: the valid members of the family, plus one with edges that take required parameters (documented as unchecked)
+    extra = schemafam.base_doc()
+    schemafam.T_(extra, "B")["fields"].append(schemafam.field("need", "[A!]", [schemafam.param("k", "Int!")]))
+    schemafam.T_(extra, "B")["fields"].append(schemafam.field("need2", "A", [schemafam.param("k", "Int!", G.I(3)), schemafam.param("s", "String!")]))
+    schemafam.T_(extra, "B")["fields"].append(schemafam.field("fine", "A", [schemafam.param("k", "Int!", G.I(3)), schemafam.param("s", "String")]))
+    docs.append({"id": len(docs) + 1, "label": "required_parameters", "doc": extra, "sdl": schemafam.render(extra), "abs": schemafam.abstract(extra)})
+    ok = vmap("schema", [{"id": d["id"], "sdl": d["sdl"]} for d in docs], wd, "schemas")
+    valid = [d for d, o in zip(docs, ok) if o["outcome"] == "ok"]
+    if tier == "quick": valid = [d for d in valid if d["label"] in ("identity", "required_parameters", "diamond_common_origin_ok", "inherited_edge_to_subtype_ok", "nested_list_property_ok")]
+    modes = ["wrong", "reorder"] if tier == "quick" else ["wrong", "reorder", "reverse", "drop", "dup"]
+    jobs = []
+    for d in valid:
+        faults = [{"kind": k, "ty": t, "field": f, "mode": m} for (k, t, f) in sites_of(d["doc"]) for m in modes]
+        jobs.append({"id": d["id"], "sdl": d["sdl"], "faults": faults})
+    outs = vmap("checker", jobs, wd, "checker")
+    cases = []; owner = []
+    for d, job, o in zip(valid, jobs, outs):
+        if o["t"] != "ok": raise ToolError(f"checker harness failed on {d['label']}: {o}")
+        if o["clean"]["panicked"]:
+            res.violation(f"check_adapter_invariants fails for a contract-abiding adapter over schema '{d['label']}': {o['clean']['msg']}", text=o["clean"]["msg"], replay={"label": d["label"], "sdl": d["sdl"]})
+        for f, r in zip(job["faults"], o["results"]):
+            cases.append({"id": len(cases) + 1, "doc": d["abs"], "site": {"kind": f["kind"], "ty": list(f["ty"]), "field": list(f["field"])}, "mode": f["mode"], "panicked": r["panicked"]})
+            owner.append((d, f, r))
+    p = os.path.join(wd, "judge.ndjson"); write_ndjson(p, cases)
+    r = tlc("Checker", "Checker.cfg", {"INST": p}, wd, workers=NCPU, timeout=3000)
+    res.add_tlc(r)
+    verd = {iid: (cls, rest) for iid, cls, rest in parse_verdicts(r["out"])}
+    if len(verd) != len(cases): raise ToolError(f"Checker: {len(verd)} verdicts for {len(cases)} cases\n" + r["out"][-2500:])
+    det = unp = 0
+    for c, (d, f, rr) in zip(cases, owner):
+        cls, rest = verd[c["id"]]
+        if cls == "C25.bad":
+            if rr["panicked"]: res.drift.append(f"fault {f} on '{d['label']}' was caught although Checker.tla says the site is not probed")
+            else: res.violation(f"the invariant checker did not catch a '{f['mode']}' fault injected into {f['kind']}({f['ty']}, {f['field']}) on schema '{d['label']}' although that site is in its documented probe set",
+                                text="undetected-fault", tags={"mode:" + f["mode"], "kind:" + f["kind"]}, replay={"label": d["label"], "sdl": d["sdl"], "fault": f})
+        elif cls == "C25.nosite": res.drift.append(f"site {f} is not a site of '{d['label']}' according to Checker.tla")
+        elif cls == "C25.detected":
+            det += 1
+            if len(res.cov["samples"]) < 3: res.sample({"schema": d["label"], "fault": f, "checker_says": rr["msg"][:140]})
+        else:
+            unp += 1
+            if unp <= 2: res.sample({"schema": d["label"], "fault": f, "outcome": "not detected - documented limitation (edge with a required parameter without default)"}, cap=6)
+    res.cov["evaluations"] = len(cases) + len(valid)
+    res.cov["distinct_nontrivial"] = det
+    res.cov["exhaustive"] = True
+    res.cov["rule"] = (f"for each of {len(valid)} valid schemas: the contract-abiding generic adapter must pass, and one fault (modes {modes}: a non-null property / a neighbour / a true coercion for a context without an active vertex; swapping, "
+                       "reversing, dropping or duplicating contexts) injected at every resolver site (every property incl. __typename, every edge, every interface->implementer coercion) must make the real check_adapter_invariants panic "
+                       "exactly when Checker.tla says the site is in the documented probe set. distinct non-trivial = faults detected")
+    res.notes.update({"schemas": len(valid), "faults": len(cases), "detected": det, "undetected_at_documented_unprobed_sites": unp})
+    return res
